@@ -735,13 +735,15 @@ def fuse(
 
     mappable = pipeline2.mappable
 
-    def fused_key_func(out_key: ChunkKey) -> FunctionArgs[Any]:
-        return pipeline1.config.back_key_function(
-            pipeline2.config.back_key_function(out_key).args[0]
-        )
-
-    def fused_func(*args):
-        return pipeline2.config.function(pipeline1.config.function(*args))
+    # op2 may read a list or iterator of blocks, so compose through the nested structure
+    fused_key_func = make_fused_back_key_function(
+        pipeline2.config.back_key_function,
+        {name: pipeline1.config.back_key_function for name in pipeline1.config.writes_map},
+    )
+    fused_func = make_fused_function(
+        pipeline2.config.function,
+        {name: pipeline1.config.function for name in pipeline1.config.writes_map},
+    )
 
     read_proxies = pipeline1.config.reads_map
     write_proxies = pipeline2.config.writes_map
